@@ -60,9 +60,21 @@ func tryRebind(p *Prog, fn *ssa.Function, x *Exec, solver *Solver, alias map[str
 	var line int
 	fmt.Sscanf(m[2], "%d", &line)
 	name := m[3]
-	if !invariantLine(x.FC, line) {
-		return nil
+	// invariants are proof witnesses: any verifying binding is a proof. Anchored assertions carry meaning through the
+	// names they use: a binding is accepted for them only if it is the only candidate under which the function verifies
+	needUnique := !invariantLine(x.FC, line)
+	if needUnique {
+		isAssert := false
+		for _, a := range x.FC.Asserts {
+			if a.C.Line == line {
+				isAssert = true
+			}
+		}
+		if !isAssert {
+			return nil
+		}
 	}
+	var found *Exec
 	mentioned := map[string]bool{}
 	var srcs []string
 	for _, cs := range [][]Clause{x.FC.Requires, x.FC.Ensures, x.FC.Panics, x.FC.Lemmas} {
@@ -86,6 +98,12 @@ func tryRebind(p *Prog, fn *ssa.Function, x *Exec, solver *Solver, alias map[str
 	}
 	locals := map[string]bool{}
 	localNames(fn, locals)
+	// helpers without a contract are executed in place (calls.go): their locals are in scope of the anchors too
+	for _, g := range p.Funcs {
+		if g.Pkg == fn.Pkg && g.Parent() == nil && g != fn && p.Contracts[g.String()] == nil && len(g.Blocks) > 0 {
+			localNames(g, locals)
+		}
+	}
 	if locals[name] {
 		return nil // the identifier exists but is not in scope here: not a rename
 	}
@@ -133,9 +151,15 @@ func tryRebind(p *Prog, fn *ssa.Function, x *Exec, solver *Solver, alias map[str
 				parts = append(parts, k+" -> "+v)
 			}
 			sort.Strings(parts)
-			x2.Assumptions["loop invariants of "+x2.short+" name locals that no longer exist; re-bound by search to renamed locals ("+strings.Join(parts, ", ")+"), accepted because every obligation of the function is discharged under this binding"] = true
-			return x2
+			x2.Assumptions["contract of "+x2.short+" names locals that no longer exist; re-bound by search to renamed locals ("+strings.Join(parts, ", ")+"), accepted because every obligation of the function is discharged under this binding (for anchored assertions: and under no other candidate)"] = true
+			if !needUnique {
+				return x2
+			}
+			if found != nil {
+				return nil // ambiguous: two different locals make the assertion provable
+			}
+			found = x2
 		}
 	}
-	return nil
+	return found
 }
